@@ -17,6 +17,14 @@
                              the answer: bounded by the LTO the side announced and, for the target, by its RWT
      Broken(llc)             the link went down before the application closed it
      Over(dir, sap, n, accepted)  send() on a data link connection was offered n octets for the peer's SAP `sap`
+                             (one message of exactly the receiver's limit and one of one octet more, per connection end)
+     End(side, role, mode, sap, sndmiu, burst, blocked)   the end of a connection at `side` (role "opn": it opened the
+                             connection in the way `mode`, "acc": it accepted it) reports its send MIU and how many
+                             send() calls the fresh connection took before it said EWOULDBLOCK (`blocked`)
+     Flight(dir, sap, n)     the largest number of unacknowledged I PDUs that were on their way to SAP `sap` (N(S), N(R)
+                             decoded from the air)
+   The Llc events also drive the connection records `dlc` of P2pNeg (SNL with an SDREQ for the service -> Lookup,
+   CONNECT -> ConnectReq with the way of addressing read off the PDU, CC -> ResolveName + AcceptConn).
      Data(dir, kind, sent, rcvd, ok, problems)   what the receiving application got
 
    A behavioural mismatch is a STUCK of <id>.  The C19 invariants (Obey over the `sent` history with the
@@ -25,16 +33,17 @@
 EXTENDS P2pNeg, Json, IOUtils, TLCExt, Sequences
 
 VARIABLES tid, l, soft
-tvars == <<c, ph, conn, sent, tid, l, soft>>
+tvars == <<c, ph, conn, sent, dlc, tid, l, soft>>
 
 TKinds == {"dep", "ml", "opt", "lto", "depx", "llcp"}
+TNoClasses == {}
 
 Traces == ndJsonDeserialize(IOEnv.TRACE_FILE)
 T == Traces[tid].ev
 C == Traces[tid].const
 
 TInit == /\ tid \in 1..Len(Traces) /\ l = 1 /\ soft = {}
-         /\ c = C.cfg /\ ph = "start" /\ conn = {} /\ sent = {}
+         /\ c = C.cfg /\ ph = "start" /\ conn = {} /\ sent = {} /\ dlc = {}
 
 Ev == T[l]
 IsEv(a) == l <= Len(T) /\ Ev.a = a /\ l' = l + 1 /\ UNCHANGED tid
@@ -50,7 +59,7 @@ Proj(e) == [acm |-> e.acm, psl |-> e.psl, brty0 |-> e.brty0, airLrI |-> e.lrI, a
             tSendLsc |-> e.t.sendLsc, tAgf |-> e.t.agf]
 
 E0 == Expected(c)
-Same == UNCHANGED <<c, ph, conn, sent>>
+Same == UNCHANGED <<c, ph, conn, sent, dlc>>
 Range(s) == {s[k] : k \in DOMAIN s}
 Src(dir) == IF dir = "IT" THEN "I" ELSE "T"
 
@@ -66,31 +75,78 @@ GXfer == /\ IsEv("Xfer") /\ ph = "up" /\ Same
          /\ (Ev.full => Ev.n = (IF Ev.dir = "IT" THEN E0.i.sendMiu ELSE E0.t.sendMiu))
 
 \* the PDUs of one LLC frame: the frame itself and, for an aggregate, the PDUs inside
-Outer == [t |-> Ev.t, dsap |-> Ev.dsap, ssap |-> Ev.ssap, info |-> Ev.info, miux |-> Ev.miux]
-Pdus == IF Ev.t = "AGF" THEN Range(Ev.inner) ELSE {Outer}
+\* (CONNECT / CC carry mtlv, rw, sn: the MIUX / RW TLV values, NoTlv when absent, and whether there is an SN TLV; SNL
+\* carries svc: it asks for the SAP of the service)
+Outer == IF Ev.t \in {"CONNECT", "CC"}
+         THEN [t |-> Ev.t, dsap |-> Ev.dsap, ssap |-> Ev.ssap, info |-> Ev.info, miux |-> Ev.miux,
+               mtlv |-> Ev.mtlv, rw |-> Ev.rw, sn |-> Ev.sn]
+         ELSE IF Ev.t = "SNL"
+         THEN [t |-> Ev.t, dsap |-> Ev.dsap, ssap |-> Ev.ssap, info |-> Ev.info, miux |-> Ev.miux, svc |-> Ev.svc]
+         ELSE [t |-> Ev.t, dsap |-> Ev.dsap, ssap |-> Ev.ssap, info |-> Ev.info, miux |-> Ev.miux]
+PduSeq == IF Ev.t = "AGF" THEN Ev.inner ELSE <<Outer>>
+Pdus == Range(PduSeq)
+\* the connection records follow the PDUs on the air (s = the sender of the PDU): the way of addressing is read off the
+\* CONNECT (SAP 1 + SN TLV: by name; else by SAP, after the sender's lookup of the service name or without one)
+Par(p) == [miux |-> p.mtlv, rw |-> p.rw]
+Pending(dl, s, p) == {d \in dl : d.init = Other(s) /\ d.st = "connect" /\ d.ssap = p.dsap}
+DlcStep(dl, p, s) ==
+    CASE p.t = "SNL" /\ p.svc /\ ~\E d \in dl : d.init = s -> dl \cup {Looked(s)}
+      [] p.t = "CONNECT" ->
+            {d \in dl : d.init # s} \cup
+            {Requested(s, IF p.dsap = 1 /\ p.sn THEN "name"
+                          ELSE IF \E d \in dl : d.init = s /\ d.st = "resolved" THEN "resolved" ELSE "sap",
+                       p.ssap, p.dsap, Par(p))}
+      [] p.t = "CC" /\ Pending(dl, s, p) # {} ->
+            LET d == CHOOSE e \in Pending(dl, s, p) : TRUE
+                r == IF d.dsap = 1 THEN Rewritten(d, p.ssap) ELSE d IN
+            (dl \ {d}) \cup {Accepted(c, r, p.ssap, Par(p))}
+      [] OTHER -> dl
+RECURSIVE DlcFold(_, _, _, _)
+DlcFold(dl, seq, k, s) == IF k > Len(seq) THEN dl ELSE DlcFold(DlcStep(dl, seq[k], s), seq, k + 1, s)
 UnitsOf(p, dir) ==
     {Unit(c, conn, "llc", dir, 0, p.info)}
     \cup (IF p.t = "UI" THEN {Unit(c, conn, "ui", dir, p.dsap, p.info)} ELSE {})
     \cup (IF p.t = "I" THEN {Unit(c, conn, "i", dir, p.dsap, p.info)} ELSE {})
 GLlc == /\ IsEv("Llc") /\ ph = "up"
-        /\ conn' = conn \cup {[side |-> Src(Ev.dir), sap |-> p.ssap, miu |-> p.miux] : p \in {q \in Pdus : q.t \in {"CONNECT", "CC"}}}
+        /\ conn' = conn \cup {[side |-> Src(Ev.dir), sap |-> p.ssap, miu |-> p.miux, rw |-> RwOfP(Par(p))] :
+                                    p \in {q \in Pdus : q.t \in {"CONNECT", "CC"}}}
+        /\ dlc' = DlcFold(dlc, PduSeq, 1, Src(Ev.dir))
         /\ sent' = sent \cup {Unit(c, conn, "llc", Ev.dir, 0, Ev.info)} \cup UNION {UnitsOf(p, Ev.dir) : p \in Pdus}
         /\ UNCHANGED <<c, ph>>
 GDep == /\ IsEv("Dep") /\ ph = "up"
         /\ sent' = sent \cup {Unit(c, conn, "dep", f.dir, 0, f.size) : f \in Range(Ev.frames)}
-        /\ UNCHANGED <<c, ph, conn>>
+        /\ UNCHANGED <<c, ph, conn, dlc>>
 GWaits == IsEv("Waits") /\ ph = "up" /\ Same
 GTurn  == IsEv("Turn") /\ ph = "up" /\ Same
 GData  == IsEv("Data") /\ ph = "up" /\ Same
 GBroken == IsEv("Broken") /\ ph = "up" /\ Same
 GOver   == IsEv("Over") /\ ph = "up" /\ Same
-Conform == GActivate \/ GFrame \/ GXfer \/ GLlc \/ GDep \/ GWaits \/ GTurn \/ GData \/ GBroken \/ GOver
+GEnd    == IsEv("End") /\ ph = "up" /\ Same
+GFlight == IsEv("Flight") /\ ph = "up" /\ Same
+Conform == GActivate \/ GFrame \/ GXfer \/ GLlc \/ GDep \/ GWaits \/ GTurn \/ GData \/ GBroken \/ GOver \/ GEnd \/ GFlight
+
+\* the connection record an End event speaks about, and the limits of the reporting end according to the reference
+EndOpener == IF Ev.role = "opn" THEN Ev.side ELSE Other(Ev.side)
+EndRecs == {d \in dlc : d.st = "open" /\ d.init = EndOpener}
+EndLim(d) == IF Ev.role = "opn" THEN d.opn ELSE d.acc
+EndPeer(d) == IF Ev.role = "opn" THEN d.svc ELSE d.ssap
 
 \* ---- the C19 invariants as post-conditions of a step of the real execution
-InvNames == <<"Refused", "Obey", "BitRate", "Timeouts", "LtoKept", "RwtKept", "Delivered", "LinkUp">>
+InvNames == <<"ConnEqual", "Admitted", "WinObey", "Refused", "Obey", "BitRate", "Timeouts", "LtoKept", "RwtKept", "Delivered", "LinkUp">>
 InvP(n) == CASE n = "Obey" -> ObeyP(sent')
              \* the sending side's socket refuses what the receiver does not allow (limit from the announcements on the air)
              [] n = "Refused" -> (Ev.a = "Over" /\ Ev.n > Limit(c, conn, "i", Ev.dir, Ev.sap) => ~Ev.accepted)
+             \* ... and does not refuse what the receiver allows
+             [] n = "Admitted" -> (Ev.a = "Over" /\ Ev.n <= Limit(c, conn, "i", Ev.dir, Ev.sap) => Ev.accepted)
+             \* both ends of a connection hold exactly the limits the other end announced, however it was addressed
+             [] n = "ConnEqual" -> (Ev.a = "End" =>
+                                      /\ EndRecs # {}
+                                      /\ \A d \in EndRecs :
+                                            /\ d.mode = Ev.mode /\ EndPeer(d) = Ev.sap /\ EndsEqual(c, d)
+                                            /\ Ev.sndmiu = EndLim(d).miu
+                                            /\ Ev.burst <= EndLim(d).win /\ (Ev.blocked => Ev.burst = EndLim(d).win))
+             \* never more I PDUs on their way than the receiver's window
+             [] n = "WinObey" -> (Ev.a = "Flight" => Ev.n <= WinLimit(conn, Ev.dir, Ev.sap))
              [] n = "BitRate" -> (Ev.a = "Dep" => \A f \in Range(Ev.frames) : f.brty = E0.brty /\ f.size >= 2)
              \* a deadline covers one whole exchange: every wait is at most the negotiated timeout, the first is equal
              [] n = "Timeouts" -> (Ev.a = "Waits" => /\ \A w \in Range(Ev.cyc) : w <= ExpWait(c, Ev.side) /\ w > 0
@@ -100,6 +156,9 @@ InvP(n) == CASE n = "Obey" -> ObeyP(sent')
              [] n = "Delivered" -> (Ev.a = "Data" => Ev.ok /\ Ev.problems = 0 /\ Ev.rcvd <= Ev.sent)
              [] n = "LinkUp" -> Ev.a # "Broken"
 Detail(n) == CASE n = "Refused" -> <<Ev.n, Limit(c, conn, "i", Ev.dir, Ev.sap)>>
+               [] n = "Admitted" -> <<Ev.n, Limit(c, conn, "i", Ev.dir, Ev.sap)>>
+               [] n = "ConnEqual" -> <<{<<d.mode, EndPeer(d), EndLim(d).miu, EndLim(d).win>> : d \in EndRecs}>>
+               [] n = "WinObey" -> <<Ev.n, WinLimit(conn, Ev.dir, Ev.sap)>>
                [] n = "Obey" -> {f \in sent' : f.size > f.limit}
                [] n = "BitRate" -> <<E0.brty>>
                [] n = "Timeouts" -> <<ExpWait(c, Ev.side), Ev.cyc>>
@@ -127,7 +186,7 @@ Stuck == /\ l <= Len(T)
          /\ ~ENABLED Conform
          /\ PrintT(<<"STUCK", Traces[tid].id, l, Ev.a, Why>>)
          /\ l' = Len(T) + 2
-         /\ UNCHANGED <<c, ph, conn, sent, tid, soft>>
+         /\ UNCHANGED <<c, ph, conn, sent, dlc, tid, soft>>
 
 TNext == Real \/ Stuck
 TSpec == TInit /\ [][TNext]_tvars
